@@ -1018,6 +1018,7 @@ pub fn huge_wisize(cap: usize) -> BoxedStrategy<(WDg<isize>, String)> {
 
 /// Wraps an iterator of known length and reports a chosen `size_hint` that
 /// stays honest (lower <= remaining <= upper) after every step.
+#[derive(Clone)]
 pub struct Hinted<I> {
     inner: I,
     lo: usize,
